@@ -374,6 +374,13 @@ def run(ctx):
     ctx.rule('C17.1-errors-surface', 'in the functions of this property that can themselves report failure, the Result of one of the repository\'s own fallible functions is never turned into "nothing" or a default (ok(), unwrap_or*, map_or*): an error must surface as an error, not as a value the callee never produced; a rule about what must not be there (exercised on the fixture every run)', floor=0)
     _swallow(ctx, P, 'C17.1-errors-surface', ('edp_node::node::Node::rpc',))
 
+    # "exactly that recipient": the tables are keyed by pid, so what a pid IS (node, id, serial, creation) decides who gets the message
+    ctx.rule('C17.3-recipient-identity', 'equality, hash and order of the identifier types read all their logical fields - creation included (rule C10.3-logical-fields re-run): '
+             'a pid of an earlier incarnation of the node (same id and serial, other creation) must not resolve to a live process', floor=9)
+    from ..order import SubCtx as _SubRI
+    from . import c10 as _c10ri
+    _c10ri.run(_SubRI(ctx, 'C17.3-recipient-identity', 'c10', allow=('C10.3-logical-fields',)))
+
 
 def exit_desc(B, bb):
     """line-number-free description of an exit: what error/value it returns"""
